@@ -156,6 +156,6 @@ func TestVerifC21Node(t *testing.T) {
 			return route.HashSlot
 		}},
 		{Name: "routing.HashSlotForKey", Fn: routing.HashSlotForKey},
-	}, c21.Options{FixedKeys: 8, CountPool: r.N(150, 1500), RandomPairs: r.N(40_000, 800_000), LongKeys: r.N(4, 60), ConcurrentPairs: r.N(6_000, 100_000), Goroutines: 4})
+	}, c21.Options{FixedKeys: 8, CountPool: r.N(150, 600), RandomPairs: r.N(40_000, 400_000), LongKeys: r.N(4, 60), ConcurrentPairs: r.N(6_000, 100_000), Goroutines: 4})
 	r.Count("nodes_constructed", 4*len(ns.m))
 }
